@@ -73,3 +73,20 @@ def register(w):
         ret=Tup(Bool, Str), props=["C18"], opaque_externals=True,
         witnesses=["D9a", "D9b", "D9c", "D9d", "C18_nan_vs_finite", "C18_inf_vs_finite", "C18_shape_mismatch", "C18_count_mismatch", "C18_beyond_tolerance"],
     ))
+
+    # ---- bounded stand-in (never counted as proved): feed construction
+    def bounded_feeds(world, c, out):
+        import time
+        from pyvc.run import run_witness
+        t0 = time.time()
+        holds, detail = run_witness("C18_feed_construction_family", timeout=600)
+        d = {"oid": f"{MU}:_build_ort_inputs#bounded:every_session_input_gets_its_parameter_or_the_next_positional_array", "kind": "bounded",
+             "status": "discharged" if holds else ("refuted" if holds is False else "unknown"), "backend": "enumerated", "time": time.time() - t0, "instances": 1, "trivial": 0,
+             "bounded": "0..4 session inputs x every subset supplied as named parameters x 0..5 positional arrays",
+             "note": f"_build_ort_inputs (iterator protocol over the positional arrays) is opaque to the _run_allclose contract; the real function is run on an enumerated family of fake sessions; {detail}"[:400]}
+        if holds is False:
+            d.update(args={"witness": "C18_feed_construction_family"}, replay={"reproduced": True, "detail": detail}, formula="", model=detail)
+        out["obls"].append(d)
+        out["paths"], out["time"] = 1, time.time() - t0
+        return out
+    w.add_contract(Contract(f"{MU}:<bounded-feeds>", kind="custom", custom=bounded_feeds, props=["C18"], witnesses=["C18_feed_construction_family"]))
